@@ -149,7 +149,8 @@ type scenario struct {
 	unsafe bool // level 0: a non GET backend makes the merger deep-clone the request
 	prop   []string
 	kind   string
-	step   string // reuse streams: which request of which shared instance this is
+	step   string  // reuse streams: which request of which shared instance this is
+	hb     []hback // HTTP stream: every backend is the real HTTP proxy over a stub executor
 }
 
 // ---------- observation ----------
@@ -289,8 +290,12 @@ func newInstance(sc scenario) (in *instance) {
 	}
 	svc := config.ServiceConfig{Version: config.ConfigVersion, Timeout: 10 * time.Minute, Host: []string{"http://127.0.0.1:8081"}}
 	ep := &config.EndpointConfig{Endpoint: "/x/{id}/{name}", Method: "GET", ExtraConfig: extra(sc)}
-	for _, t := range sc.ts {
-		ep.Backend = append(ep.Backend, &config.Backend{URLPattern: t.renderCfg()})
+	for i, t := range sc.ts {
+		be := &config.Backend{URLPattern: t.renderCfg()}
+		if sc.hb != nil {
+			be.ExtraConfig = sc.hb[i].extra()
+		}
+		ep.Backend = append(ep.Backend, be)
 	}
 	svc.Endpoints = []*config.EndpointConfig{ep}
 	if err := svc.Init(); err != nil {
@@ -308,6 +313,13 @@ func newInstance(sc scenario) (in *instance) {
 			i := i
 			// a successful answer travels as an HTTP body through the real HTTP proxy
 			exec := func(ctx context.Context, _ *http.Request) (*http.Response, error) {
+				if hb := stateOf(ctx).sc.hb; hb != nil {
+					h := http.Header{}
+					if hb[i].enc != "" {
+						h.Set("Content-Type", hb[i].enc)
+					}
+					return &http.Response{StatusCode: hb[i].code, Header: h, Body: io.NopCloser(strings.NewReader(hb[i].body))}, nil
+				}
 				body, err := json.Marshal(stateOf(ctx).sc.outs[i].data)
 				if err != nil {
 					panic(err)
@@ -319,7 +331,7 @@ func newInstance(sc scenario) (in *instance) {
 			return stub(i, func(ctx context.Context, r *proxy.Request) (*proxy.Response, error) {
 				st := stateOf(ctx)
 				o := st.sc.outs[i]
-				if o.kind == 0 && o.complete && o.data != nil {
+				if st.sc.hb != nil || (o.kind == 0 && o.complete && o.data != nil) {
 					return viaHTTP(ctx, r)
 				}
 				return scripted(st.sc, i, st.errs)
@@ -527,6 +539,10 @@ func buildCase(sc scenario, obs observation) built {
 	}
 	respC, errC := "None", "RNone"
 	var respJ, errJ interface{}
+	if obs.resp != nil && sc.hb != nil {
+		// the details of a failed backend are a Go struct: bring the data to plain JSON values
+		obs.resp.Data = normaliseData(obs.resp.Data)
+	}
 	if obs.resp != nil {
 		respC = emit.Some(fmt.Sprintf("{| data := %s; complete := %s |}", emit.OptObj(obs.resp.Data), emit.Bool(obs.resp.IsComplete)))
 		respJ = map[string]interface{}{"data": obs.resp.Data, "complete": obs.resp.IsComplete}
@@ -540,11 +556,21 @@ func buildCase(sc scenario, obs observation) built {
 	}
 	term := shareStrings(emit.App("CSeq", emit.Nat(sc.lvl), emit.List(tsC), emit.StrList(obs.pats), emit.List(outsC),
 		emit.StrMap(sc.ps0), emit.List(evC), emit.Pair(respC, errC)))
+	var hbJ []interface{}
+	if sc.hb != nil {
+		hbC := make([]string, len(sc.hb))
+		for i, h := range sc.hb {
+			hbC[i] = h.coq()
+			hbJ = append(hbJ, h.js())
+		}
+		term = shareStrings(emit.App("CSeqH", emit.List(tsC), emit.StrList(obs.pats), emit.List(hbC),
+			emit.StrMap(sc.ps0), emit.List(evC), emit.Pair(respC, errC)))
+	}
 	js := map[string]interface{}{
-		"level":    []string{"merge middleware + request builder", "config.Init + default proxy factory"}[sc.lvl],
+		"level":    []string{"merge middleware + request builder", "config.Init + default proxy factory", "config.Init + default proxy factory, backends = real HTTP proxy over a stub executor"}[lvlName(sc)],
 		"kind":     sc.kind,
 		"patterns": tsJ, "patterns_in_use": obs.pats, "outcomes": outsJ, "params": sc.ps0,
-		"deep_clone": sc.unsafe, "propagated_params": sc.prop,
+		"deep_clone": sc.unsafe, "propagated_params": sc.prop, "http_backends": hbJ,
 		"observed": map[string]interface{}{"events": evJ, "response": respJ, "error": errJ},
 	}
 	sig := ""
@@ -623,9 +649,10 @@ func main() {
 	for k := 0; k < nRand/4; k++ {
 		emitCase(w, malformedScenario(r))
 	}
+	w.Meta["http_status_cases"] = httpStream(cfg, r, w)
 	nSeq, nConc := reuseStreams(cfg, r, w)
 	w.Meta["reuse_sequential_cases"] = nSeq
 	w.Meta["reuse_concurrent_cases"] = nConc
 	w.Meta["exhaustive_scenarios"] = nExh
-	w.Close(fmt.Sprintf("regression corpus; exhaustive: N=2..5 x position 0..N-1 of the first non-successful backend x kind {error, (nil,nil), incomplete payload, incomplete nil-data payload, complete nil-data payload} + all successful, every later backend referencing every earlier response with paths of depth 1..3, x value variants (strings incl. empty/spaces/unicode/url metacharacters, booleans, json.Number literals incl. big ints/decimals/exponents, arrays, null, objects) x 2 levels (merge middleware behind the request builder; config.Init + default factory with HTTP-decoded answers); random: N=2..%d, random documents/templates (existing, missing, partially missing paths, later/own/out-of-range indexes, repeated placeholders, endpoint parameters, overlapping keys, propagated params); malformed: values and parameters with braces, empty path segments, parameters named like destinations; instance reuse: ONE proxy per configuration serving a sequence of 3-6 requests that differ in propagated values / endpoint parameters / outcome kinds (corpus orders + random sequences, both levels), and one proxy hit by 12 goroutines behind a start gate over 8 distinct requests (run in a child process; every distinct (request, observation) pair emitted once). nontrivial = some backend is non-successful or some placeholder is resolved", maxN), true)
+	w.Close(fmt.Sprintf("regression corpus; exhaustive: N=2..5 x position 0..N-1 of the first non-successful backend x kind {error, (nil,nil), incomplete payload, incomplete nil-data payload, complete nil-data payload} + all successful, every later backend referencing every earlier response with paths of depth 1..3, x value variants (strings incl. empty/spaces/unicode/url metacharacters, booleans, json.Number literals incl. big ints/decimals/exponents, arrays, null, objects) x 2 levels (merge middleware behind the request builder; config.Init + default factory with HTTP-decoded answers); random: N=2..%d, random documents/templates (existing, missing, partially missing paths, later/own/out-of-range indexes, repeated placeholders, endpoint parameters, overlapping keys, propagated params); malformed: values and parameters with braces, empty path segments, parameters named like destinations; HTTP stream: config.Init + default factory with every backend behind the real HTTP proxy (stub executor returning *http.Response), the varied backend at every position of chains of N=2..3 (thorough 2..5) x 24 statuses over 100..599 (every class, 200/201/204/301/400/401/403/404/429/500/502/503 and neighbours) x {default, return_error_code, return_error_details}, other backends answering 200 with data referenced by later placeholders, plus per-mode reuse sequences 200->404->503->429->201 through one instance; instance reuse: ONE proxy per configuration serving a sequence of 3-6 requests that differ in propagated values / endpoint parameters / outcome kinds (corpus orders + random sequences, both levels), and one proxy hit by 12 goroutines behind a start gate over 8 distinct requests (run in a child process; every distinct (request, observation) pair emitted once). nontrivial = some backend is non-successful or some placeholder is resolved", maxN), true)
 }
